@@ -1167,6 +1167,23 @@ func c02Tasks(tier string) []mc.Task {
 		}
 	})
 
+	//   buffer-boundary sweep: the readers hand the lexers 4096-byte buffers; with the row length (then the
+	//   length of the first name) growing by one from 3700 to 4100, the end of every token of the first ~400
+	//   bytes of overhead, of the first row and of the second name falls exactly on the last byte of a
+	//   buffer, on the first of the next, and on every offset in between, in every format
+	for sh := 0; sh < 8; sh++ {
+		sh := sh
+		add(fmt.Sprintf("shape#boundary-sweep/%d", sh), func(c *mc.Ctx) {
+			for L := 3700 + sh; L <= 4100; L += 8 {
+				c02Check(c, c02Case{Kind: "rt", Rows: c02ShapeRows(c02NtSyms, 2, L)})
+				c02Check(c, c02Case{Kind: "rt", Rows: rows{{strings.Repeat("n", L), "ACGT"}, {"b", "AC-T"}}})
+				if c.Expired() {
+					return
+				}
+			}
+		})
+	}
+
 	//   the same long rows through the file layer (files larger than what the readers have buffered when the
 	//   parse starts: plain, .gz and .xz, every configuration, all three ways of reading)
 	for _, ext := range []string{"", ".gz", ".xz"} {
